@@ -500,4 +500,68 @@ theorem nonDom_real_iff (d : Nat) (a : List Entry) (ha : Dim d a) :
   · intro h m hm n hn; rw [domN_eq d _ _ (ha m hm) (ha n hn)]; exact h m hm n hn
   · intro h m hm n hn; rw [← domN_eq d _ _ (ha m hm) (ha n hn)]; exact h m hm n hn
 
+/-! ### a held action set is refused as a duplicate (needs non-dominance and consistency) -/
+
+/-- if the archive is non-dominated and every member with the candidate's action set carries the
+candidate's vector (C01), a candidate whose action set is held is refused *as a duplicate*: no member
+can dominate it, because that member would dominate the holder -/
+theorem cannot_of_held (a : List Entry) (c : Entry) (hnd : NonDom dom a)
+    (hcons : ∀ m ∈ a, m.act = c.act → m.vec = c.vec) (hheld : ∃ m ∈ a, m.act = c.act) :
+    cannot dom a c = some .rejDuplicate := by
+  obtain ⟨m, hm, hact⟩ := hheld
+  cases hc : cannot dom a c with
+  | none => exact absurd hact (((cannot_none_iff a c).mp hc) m hm).2
+  | some r =>
+    rcases cannot_some_cases a c r hc with rfl | rfl
+    · obtain ⟨w, hw, hwd⟩ := cannot_rejDominated a c hc
+      have := hnd w hw m hm
+      rw [hcons m hm hact, hwd] at this
+      exact absurd this (by simp)
+    · rfl
+
+/-! ### the archive's own self-check accepts every non-dominated archive -/
+
+theorem isNonDominantAsWritten_of_nonDom (a : List Entry) (h : NonDom dom a) :
+    isNonDominantAsWritten dom a = true := by
+  unfold isNonDominantAsWritten
+  simp only [List.all_eq_true]
+  intro i _ j _
+  split
+  · split
+    · rename_i x y hx hy
+      have hxm := List.mem_of_getElem? hx
+      have hym := List.mem_of_getElem? hy
+      simp [h x hxm y hym, h y hym x hxm]
+    · rfl
+  · rfl
+
+/-! ### storage order is irrelevant to the invariant (`SelectRandomIsolatedModel` sorts in place) -/
+
+theorem NonDom.perm {a b : List Entry} (hp : a.Perm b) (h : NonDom dom a) : NonDom dom b :=
+  fun m hm n hn => h m (hp.mem_iff.mpr hm) n (hp.mem_iff.mpr hn)
+
+theorem NoDup.perm {a b : List Entry} (hp : a.Perm b) (h : NoDup a) : NoDup b :=
+  (hp.pairwise_iff (R := fun m n : Entry => m.act ≠ n.act) (fun h => Ne.symm h)).mp h
+
+/-! ### an offer (with or without the forced store) never leaves the archive empty -/
+
+theorem attempt_ne_nil (a : List Entry) (c : Entry) : (attempt dom a c).2 ≠ [] := by
+  rcases attempt_res_cases (dom := dom) a c with ⟨hc, _⟩ | ⟨hc, h2⟩ | ⟨hc, h2⟩
+  · rw [(attempt_of_cannot_none a c hc).1]; simp
+  · obtain ⟨m, hm, _⟩ := cannot_rejDominated a c hc
+    rw [h2]; exact List.ne_nil_of_mem hm
+  · obtain ⟨m, hm, _⟩ := cannot_rejDuplicate a c hc
+    rw [h2]; exact List.ne_nil_of_mem hm
+
+theorem force_ne_nil (a : List Entry) (c : Entry) : (force dom a c).2 ≠ [] := by simp [force]
+
+theorem offer_ne_nil (b : Bool) (a : List Entry) (c : Entry) : offer dom b a c ≠ [] := by
+  have h := attempt_ne_nil (dom := dom) a c
+  unfold offer
+  split
+  · split
+    · exact force_ne_nil _ c
+    · rename_i heq _; rw [heq] at h; exact h
+  · rename_i heq; rw [heq] at h; exact h
+
 end Crem.Archive
